@@ -48,7 +48,7 @@ try:
         lines = [l for l in (t.stdout + t.stderr).splitlines() if l.startswith("test result") or "FAILED" in l and l.startswith("test ")]
         out["test_suite_lines"] = lines
         out["tests_at_baseline"] = any("3 passed; 0 failed" in l for l in lines) and any("543 passed; 1 failed" in l for l in lines) and \
-            [l for l in lines if l.startswith("test ") and "FAILED" in l] == ["test number_long_decimal ... FAILED"]
+            [l for l in lines if l.startswith("test ") and not l.startswith("test result") and "FAILED" in l] == ["test number_long_decimal ... FAILED"]
         ok, log = build_clis()
         out["changed_builds"] = ok
         changed = {os.path.basename(d): {b: cli(b, d) for b in ("debug", "release")} for d in demos}
